@@ -3,6 +3,20 @@ import QKV.Drv.PyJson
 import QKV.Model.Print
 open Lean QKV QKV.Drv QKV.Py
 
+def exOfJson (j : Json) : Except String (Option (Bool × List Char)) :=
+  match j.getObjVal? "ex" with
+  | .ok (.null) => pure none
+  | .ok e => do pure (some ((← getBool e "neg"), (← getStr e "ds").toList))
+  | .error _ => pure none
+
+def numLitOfJson (j : Json) : Except String QKV.Py.NumLit := do
+  let t ← getStr j "t"
+  match t with
+  | "int" => pure (.int (← getBool j "neg") (← getStr j "ds").toList)
+  | "float" =>
+    pure (.float (← getBool j "neg") (← getStr j "ip").toList (← getStr j "fp").toList (← exOfJson j))
+  | _ => throw s!"bad list element kind {t}"
+
 def litOfJson (j : Json) : Except String Lit := do
   let t ← getStr j "t"
   match t with
@@ -10,12 +24,9 @@ def litOfJson (j : Json) : Except String Lit := do
   | "bool" => pure (.bool (← getBool j "b"))
   | "int" => pure (.int (← getBool j "neg") (← getStr j "ds").toList)
   | "float" =>
-    let ex ← match j.getObjVal? "ex" with
-      | .ok (.null) => pure none
-      | .ok e => pure (some ((← getBool e "neg"), (← getStr e "ds").toList))
-      | .error _ => pure none
-    pure (.float (← getBool j "neg") (← getStr j "ip").toList (← getStr j "fp").toList ex)
+    pure (.float (← getBool j "neg") (← getStr j "ip").toList (← getStr j "fp").toList (← exOfJson j))
   | "str" => pure (.str (← getBool j "dq") (← getStr j "cs").toList)
+  | "list" => pure (.list (← (← (← j.getObjVal? "ns").getArr?).toList.mapM numLitOfJson))
   | _ => throw s!"bad literal kind {t}"
 
 def argOfJson (j : Json) : Except String Arg := do
